@@ -1803,6 +1803,14 @@ func encWanted(codec string) bool { return strHasPrefix(codec, "avc") || strHasP
 //@   ensures clearInit: ret1 == nil && ret0.isInit && (cfg.DRM == "" || ret0.rep.encData == nil) ==> ret0.init == ret0.rep.initBytes
 
 // urlSafeBase64: padding removed, '+' -> '-', '/' -> '_' (RFC 4648 section 5), in that order of calls.
+// strHasSuffixSpec: strings.HasSuffix (uninterpreted in proofs).
+func strHasSuffixSpec(s, suffix string) bool { return strings.HasSuffix(s, suffix) }
+
+//@ uninterpreted strHasSuffixSpec
+
+//@ extern func strings.HasSuffix(s, suffix) (r)
+//@   ensures r == strHasSuffixSpec(s, suffix)
+
 // urlSafeSpec: the URL-safe spelling of a base64 text (uninterpreted in proofs).
 func urlSafeSpec(b64 string) string { return urlSafeBase64(b64) }
 
@@ -1818,6 +1826,8 @@ func urlSafeSpec(b64 string) string { return urlSafeBase64(b64) }
 //@ func (*Server).laURLHandlerFunc
 //@   wiring
 //@   callsite kidToKey requires issuedKid: kidPrefixed(arg_kid)
+//@   exit 2 requires wrongSuffixRefusedAndDone: !strHasSuffixSpec(uPath, laURLSuffix)
+//@   callsite net/http.Error requires clientErrorsAre4xx: (arg1 == "Unmarshal error" || arg1 == "id16FromBase64 error" || arg1 == "key ID not issued by this server") ==> arg2 == 400
 //@   store kidStr := requires echoedKidIsTheRequestedOne: kidStr == urlSafeSpec(kid)
 //@   callsite append:respData.Keys requires entryPairsKeyWithItsKid: vararg0.K == keyStr && vararg0.Kid == kidStr && vararg0.Kty == "oct"
 
